@@ -31,7 +31,7 @@ ALPHA2 = "jxJX98"
 TMPL = st.lists(st.sampled_from(["c", "c", "c", "c", " ", "%", "%s", "%(x)s", "{}", "{0}", "é", "\t", '"', "\\", "%d", "*", "я", "€", "\udc80"]),
                 min_size=1, max_size=12)
 MODES = ["client", "client", "raw", "early", "twice", "free", "nouser", "reuser", "client_context", "overlimit", "overlimit_server",
-         "error_paths", "client_latin1", "client_ascii", "client_latin1", "work", "work"]
+         "error_paths", "client_latin1", "client_ascii", "client_latin1", "work", "work", "overlong"]
 CASE = st.tuples(TMPL, st.sampled_from(MODES), st.sampled_from(["PASS", "pass", "PaSs"]), st.booleans())
 
 
@@ -69,6 +69,25 @@ async def session(loop, pw, stored, mode, verb):
                            path_io_factory=GhostIO if mode == "work" else aioftp.MemoryPathIO,
                            maximum_connections=2 if mode == "overlimit_server" else None, wait_future_timeout=1)
     await server.start(HOST, PORT)
+    if mode == "overlong":
+        # a PASS line beyond the stream limit (64 KiB), arriving in two pieces: whatever the server does with the excess,
+        # neither piece may show up in a log record
+        raw = harness.Raw()
+        await raw.connect()
+        await raw.cmd("USER bob")
+        long_pw = (pw * (70000 // max(1, len(pw)) + 1))[:70000]
+        cut = 66000
+        raw.send((verb + " " + long_pw[:cut]).encode("utf-8", "replace"))
+        await asyncio.sleep(0.5)
+        raw.send((long_pw[cut:] + "\r\n").encode("utf-8", "replace"))
+        for _ in range(3):
+            code, _ls = await raw.reply()
+            if code in ("EOF", "SILENCE"):
+                break
+        raw.close()
+        await asyncio.sleep(0.1)
+        await server.close()
+        return
     if mode == "work":
         # a logged-in session of the password user walks through the server's other logging sites: listings (also of a
         # directory with a vanished entry), transfers, a transfer without data connection (425), ABOR, QUIT
